@@ -1332,6 +1332,9 @@ int32_t tls13ParseServerHello(ssl_t *ssl,
     unsigned char compressionMethod;
     uint16_t tmp_u16;
     uint16_t legacy_version;
+    /* True if this ServerHello answers the ClientHello we sent in
+       response to a HelloRetryRequest. */
+    psBool_t afterHrr = ssl->tls13IncorrectDheKeyShare;
 
     psTracePrintHsMessageParse(ssl, SSL_HS_SERVER_HELLO);
 
@@ -1385,6 +1388,14 @@ int32_t tls13ParseServerHello(ssl_t *ssl,
     if (!Memcmp(&ssl->sec.serverRandom, sha256OfHelloRetryRequest,
                     SSL_HS_RANDOM_SIZE))
     {
+        if (afterHrr)
+        {
+            /* RFC 8446, 4.1.4: a second HelloRetryRequest in the same
+               connection MUST be answered with unexpected_message. */
+            psTraceErrr("Received a second HelloRetryRequest\n");
+            ssl->err = SSL_ALERT_UNEXPECTED_MESSAGE;
+            return MATRIXSSL_ERROR;
+        }
         ssl->tls13IncorrectDheKeyShare = PS_TRUE;
         psTraceInfo(">>> Client parsing TLS 1.3 HelloRetryRequest message\n");
 
@@ -1442,6 +1453,10 @@ int32_t tls13ParseServerHello(ssl_t *ssl,
        a TLS 1.3 server hello .*/
     if (!psParseCanRead(pb, 8)) /* 8 = minimum length of extensions */
     {
+        if (afterHrr)
+        {
+            goto out_version_changed_after_hrr;
+        }
         /* Move the state machine to legacy track */
         psTraceInfo("No extensions, so not a valid TLS 1.3 ServerHello\n");
         ssl->hsState = SSL_HS_SERVER_HELLO;
@@ -1475,6 +1490,10 @@ int32_t tls13ParseServerHello(ssl_t *ssl,
            SSL_NO_TLS_1_3 to fall back to the <1.3 decode
            code path. */
         psTraceInfo("Unable to negotiate TLS 1.3, trying <1.3\n");
+        if (rc == SSL_NO_TLS_1_3 && afterHrr)
+        {
+            goto out_version_changed_after_hrr;
+        }
         return rc;
     }
 
@@ -1502,6 +1521,14 @@ int32_t tls13ParseServerHello(ssl_t *ssl,
     }
 
     return MATRIXSSL_SUCCESS;
+
+out_version_changed_after_hrr:
+    /* RFC 8446, 4.1.4: the version selected in the HelloRetryRequest
+       must be retained in the ServerHello. */
+    psTraceErrr("ServerHello after HelloRetryRequest does not select TLS 1.3\n");
+    ssl->hsState = SSL_HS_TLS_1_3_WAIT_SH;
+    ssl->err = SSL_ALERT_ILLEGAL_PARAMETER;
+    return MATRIXSSL_ERROR;
 }
 
 static int32_t tls13ClientActivateHsReadKeys(ssl_t *ssl)
